@@ -240,6 +240,10 @@ class Ctx(Rec):
         problems = validate_evidence(ev)
         os.makedirs(os.path.join(OUT, "evidence"), exist_ok=True)
         path = os.path.join(OUT, "evidence", f"{self.pid}.json")
+        if getattr(self, "part", None):
+            # a run of one part (development / sensitivity runs) never replaces the evidence of the whole check
+            os.makedirs(os.path.join(OUT, "evidence", "parts"), exist_ok=True)
+            path = os.path.join(OUT, "evidence", "parts", f"{self.pid}-{self.part}.json")
         tmp = path + ".tmp"
         with open(tmp, "w") as fh:
             json.dump(ev, fh, indent=1, sort_keys=False)
